@@ -7,7 +7,7 @@ from .. import progcheck
 FAMILIES = {
     "quick": [("FTC3", 42), ("FTWIN", 4), ("FSQ", 2), ("FDUP", 4), ("FR", 32), ("F1.3e", 48), ("FLEX", 10), ("F1.2one", 64), ("F1.1one", 4), ("FC3m", 48), ("FT", 8), ("FC3", 48), ("F2.3", 48), ("F3.2", 96), ("F1.2", 96), ("F1.3s", 24), ("F2.2", 8), ("F3.1", 8), ("F1.1", 8),
               ("F1.1dup", 4), ("F2.1", 2)],
-    "thorough": [("FTC3", 42), ("FTWIN", 4), ("FSQ", 2), ("FDUP", 4), ("FR", 32), ("F1.3e", 48), ("FLEX", 10), ("F1.2one", 64), ("F1.1one", 4), ("FC3g/4", 64), ("FC3m", 48), ("FT", 8), ("FC3", 48), ("F3.3/8", 64), ("F2.4/2", 128), ("F1.3/256", 64), ("F2.3", 48), ("F3.2", 96), ("F1.2", 128),
+    "thorough": [("FTC3", 42), ("FTWIN", 4), ("FSQ", 2), ("FDUP", 4), ("FR", 32), ("F1.3e", 48), ("FLEX", 10), ("F1.2one", 64), ("F1.1one", 4), ("FC3g/8", 64), ("FC3m", 48), ("FT", 8), ("FC3", 48), ("F3.3/16", 64), ("F2.4/4", 64), ("F1.3/512", 64), ("F2.3", 48), ("F3.2", 96), ("F1.2", 128),
                  ("F1.3s", 48), ("F2.2", 8), ("F3.1", 8), ("F1.1", 8), ("F1.1dup", 4), ("F2.1", 2)],
 }
 
